@@ -82,6 +82,22 @@ func H_sign() {
 			break
 		}
 		d := rt.Bytes("f"+string(rune('0'+i)), rt.Param(name))
+		if rt.HasParam("real") {
+			// regime R: sizes are given in bytes relative to the real 64 KiB block (n = k*B + delta encoded as k*8+delta+3,
+			// delta in -3..4): concrete pseudo-random content, first and last byte symbolic
+			v := rt.Param(name)
+			n := (v/8)*B + (v%8 - 3)
+			d = make([]byte, n)
+			x := uint32(7 + i)
+			for j := range d {
+				x = x*1103515245 + 12345
+				d[j] = byte(x >> 16)
+			}
+			if n > 0 {
+				d[0] = rt.Byte("first" + string(rune('0'+i)))
+				d[n-1] = rt.Byte("last" + string(rune('0'+i)))
+			}
+		}
 		files = append(files, hlib.File{Path: "f" + string(rune('0'+i)), Data: d})
 		contents = append(contents, d)
 	}
